@@ -289,4 +289,20 @@ theorem elems_eq {α : Type} (base : List α) (s : Span) (h : s.off + s.size ≤
 def SpanWF {α : Type} (base : List α) (s : Span) : Prop :=
   s.off + s.size ≤ base.length ∧ ∀ n, s.ext = some n → s.size = n
 
+theorem make_wf {α : Type} (base : List α) (off n : Nat) (ext : Option Nat) (h : off + n ≤ base.length)
+    (he : ∀ k, ext = some k → k = n) : SpanWF base (Span.make off n ext) ∧ (Span.make off n ext).off = off
+      ∧ (Span.make off n ext).size = n ∧ (Span.make off n ext).ext = ext := by
+  cases ext with
+  | none => simp [Span.make, SpanWF]; exact h
+  | some k =>
+    have := he k rfl
+    subst this
+    simp [Span.make, SpanWF]; exact h
+
+theorem size_le_extVal {α : Type} (base : List α) (s : Span) (hw : SpanWF base s) (hs : s.size ≤ DYN) :
+    s.size ≤ extVal s.ext := by
+  cases h : s.ext with
+  | none => simpa [extVal] using hs
+  | some n => simp [extVal, hw.2 n h]
+
 end Tetl.C19.Lemmas
